@@ -431,17 +431,17 @@ class bspline(object):
         nbkpt = self.mask.sum()
         if nbkpt <= 2*self.nord:
             return -2
-        hmm = err[np.unique(err/self.npoly)]/self.npoly
+        err = np.atleast_1d(err)
+        hmm = err[uniq(err//self.npoly)]//self.npoly
         n = nbkpt - self.nord
         if np.any(hmm >= n):
             return -2
         test = np.zeros(nbkpt, dtype='bool')
-        for jj in range(-np.ceil(self.nord/2.0), self.nord/2.0):
-            foo = np.where((hmm+jj) > 0, hmm+jj, np.zeros(hmm.shape, dtype=hmm.dtype))
-            inside = np.where((foo+self.nord) < n-1, foo+self.nord, np.zeros(hmm.shape, dtype=hmm.dtype)+n-1)
-            test[inside] = True
+        for jj in range(-int(np.ceil(self.nord/2.0)), (self.nord - 1)//2 + 1):
+            inside = np.clip(hmm + jj, 0, n - 1)
+            test[inside + self.nord] = True
         if test.any():
-            reality = self.mask[test]
+            reality = self.mask.nonzero()[0][test]
             if self.mask[reality].any():
                 self.mask[reality] = False
                 return -1
